@@ -66,6 +66,7 @@ let split_calls (toks : string list) : string list * (int * string list) list =
       (match !cur with
        | Some (id, evs) -> calls := (id, Stdlib.List.rev evs) :: !calls; cur := None
        | None -> ())
+    else if n >= 1 && t.[0] = 'X' then ()      (* xlat refcount callouts: judged by the driver's counter *)
     else begin
       plain := t :: !plain;
       match !cur with Some (id, evs) -> cur := Some (id, t :: evs) | None -> ()
